@@ -480,9 +480,60 @@ func VH_C08_fresh_after_rand_fault() {
 		random = ss - 4
 	}
 	for i := range salts {
+		if ss >= 20 {
+			// every response that went out, also one written while the random source was failing,
+			// starts with a salt the server recognises as its own
+			verifAssert("C08.fresh.every-response-salt-recognised", entries[0].SaltGenerator.IsServerSalt(salts[i]))
+		}
 		for j := 0; j < i; j++ {
 			verifAssert("C08.fresh.salt-new-for-each-connection", verifFreshBytes(salts[i][:random], salts[j][:random]))
 		}
 	}
 	verifReach("C08.fresh.done", len(salts) >= n-2)
+}
+
+// C08: another connection is authenticated while this one is between its key search and its
+// replay checks (the search-time metric is reported there): a reflected server salt is still refused
+type verifSearchMetrics struct{ hook func() }
+
+func (m *verifSearchMetrics) AddCipherSearch(accessKeyFound bool, timeToCipher time.Duration) {
+	if m.hook != nil {
+		h := m.hook
+		m.hook = nil
+		h()
+	}
+}
+
+func VH_C08_reflected_with_connection_in_between() {
+	cl, specs, _ := verifMakeList(1, 1, false)
+	key := verifKey(specs[0].cipher, verifSecrets[specs[0].secret])
+	if key.SaltSize() < 20 {
+		return // no mark in short salts
+	}
+	buf := &verifBuf{}
+	w := verifNewWriterWithSalt(buf, key, NewServerSaltGenerator(verifSecrets[specs[0].secret]))
+	w.Write([]byte{1, 93, 184, 216, 34, 0, 80, 'x', 'y'})
+	other := &verifBuf{}
+	w2 := verifNewWriterWithSalt(other, key, verifFixedSaltGen{4})
+	w2.Write([]byte{1, 93, 184, 216, 35, 0, 80, 'z'})
+	sm := &verifSearchMetrics{}
+	var cache *ReplayCache
+	if verifFlag("history-on") {
+		c := NewReplayCache(5)
+		cache = &c
+	}
+	h := NewStreamHandler(NewShadowsocksStreamAuthenticator(cl, cache, sm, nil), tcpReadTimeout)
+	h.SetTargetDialer(&verifDialer{conn: &verifStreamConn{name: "target", remote: &net.TCPAddr{IP: net.IPv4(93, 184, 216, 34), Port: 80}}})
+	conn := &verifStreamConn{name: "reflecting", remote: &net.TCPAddr{IP: net.IPv4(203, 0, 113, 5), Port: 50000}}
+	conn.reads = []verifSRead{{data: buf.b}}
+	m := &verifTCPMetrics{}
+	sm.hook = func() {
+		c2 := &verifStreamConn{name: "ordinary", remote: &net.TCPAddr{IP: net.IPv4(203, 0, 113, 6), Port: 50001}}
+		c2.reads = []verifSRead{{data: other.b}}
+		h.Handle(context.Background(), c2, &verifTCPMetrics{})
+	}
+	h.Handle(context.Background(), conn, m)
+	verifAssert("C08.in-between.refused-as-server-replay", len(m.closed) == 1 && m.closed[0] == "ERR_REPLAY_SERVER" && len(m.authenticated) == 0)
+	verifAssert("C08.in-between.handled-like-a-probe", conn.writeCalls == 0 && len(m.probes) == 1)
+	verifReach("C08.in-between.done", true)
 }
